@@ -155,6 +155,9 @@ impl World {
             seq_issue: 0,
         };
         self.bytes_requested = self.bytes_requested.saturating_add(len as u64);
+        if std::env::var("QV_DUMP0").is_ok() && off == 0 && kind == Kind::Write {
+            eprintln!("W off=0 len={} task={} bytes={:02x?}", len, self.cur_task, &r.data[..r.data.len().min(128)]);
+        }
         self.reqs.push(r);
         self.inflight.push(id);
         if let Some(mut o) = self.obs.take() {
@@ -214,7 +217,7 @@ impl World {
                     } else {
                         std::cmp::min(r.len as u64, flen - r.off) as usize
                     };
-                    r.data = f[r.off as usize..r.off as usize + n].to_vec();
+                    r.data = if n == 0 { Vec::new() } else { f[r.off as usize..r.off as usize + n].to_vec() };
                     r.state = ReqState::Ok(n);
                 }
                 Kind::Write => {
